@@ -107,6 +107,7 @@ func (f structFamily) truncated() []func() ([]byte, string) {
 	var out []func() ([]byte, string)
 	s := f.seed
 	recs := s.dec.Recs
+	fields := sizeFields(s)
 	cuts := func(n int) []int {
 		var ks []int
 		for k := 1; k <= 24 && k <= n; k++ {
@@ -129,6 +130,30 @@ func (f structFamily) truncated() []func() ([]byte, string) {
 				b = append(b, body...)
 				return append(b, s.bytes[r.End():]...), fmt.Sprintf("%s record at %d: last %d bytes of its body removed, record length fixed up", ref.OpName(r.Op), r.Off, k)
 			})
+		}
+		// consistent truncation: when the record ends with a length-prefixed string, array or map, that
+		// prefix is reduced by the same k - the extent check of the trailing field passes and the cut
+		// falls inside an entry (a 10-byte count entry, a 16-byte index entry, a key/value pair)
+		for _, fl := range fields {
+			if fl.w != 4 || fl.off < r.Off || fl.off >= r.End() || !strings.HasSuffix(fl.field, "_length") {
+				continue
+			}
+			v := int(binary.LittleEndian.Uint32(s.bytes[fl.off:]))
+			if fl.off+4+v != r.End() {
+				continue
+			}
+			for k := 1; k <= 17 && k <= v; k++ {
+				k, fl := k, fl
+				out = append(out, func() ([]byte, string) {
+					body := append([]byte(nil), s.bytes[r.Off+9:r.End()-k]...)
+					binary.LittleEndian.PutUint32(body[fl.off-(r.Off+9):], uint32(v-k))
+					b := append([]byte(nil), s.bytes[:r.Off]...)
+					b = append(b, r.Op)
+					b = binary.LittleEndian.AppendUint64(b, uint64(len(body)))
+					b = append(b, body...)
+					return append(b, s.bytes[r.End():]...), fmt.Sprintf("%s record at %d: last %d bytes removed, record length and %s reduced alike", ref.OpName(r.Op), r.Off, k, fl.field)
+				})
+			}
 		}
 		if r.Op != ref.OpChunk || r.Chunk.Uncompressed == nil {
 			continue
